@@ -25,8 +25,10 @@ line protocol for C10 (core-only):
         `toPrune` / `toSave` on the observed mid graph.  `fin`: `tail` run FROM THE OBSERVED MID GRAPH with
         the classes of `cls` must give the dump after the batch exactly (et=1), else its node/vector sets.
   docs vp=<k.k.k> S=<id>=<doc>;… ops=<ins|upd|del>@<id>@<doc|~>;…
-      → "ok <id>:<tag|->,…" | "err": `pbatch` on the stored documents of the points the batch names — the
-        whole change stream of a multi-element batch, points named several times included
+      [T=<id>:<tag|->,…]
+      → "ok <id>:<tag|->,… [| vec <id>:<tag|->,…]" | "err": `pbatch` on the stored documents of the points the
+        batch names — the whole change stream of a multi-element batch, points named several times included —
+        and (plain store) `vecsAfter`: which vector the index holds per node after consuming that stream
   doc vp=<k.k.k> op=<ins|upd|del> id=<n> old=<doc|~> inc=<doc|~> was=<0|1> wasvec=<tag|-> raw=<0|1>
       → "new=<doc|~> inV=<0|1> vec=<tag|-|?>": `pstep` (the shard's transform function + `getOperation` /
         `preProcessVamana` for the vector index on schema path vp) on the stored document `old` and the
@@ -220,6 +222,7 @@ def batchStep (rest : List String) : String :=
   s!"{cls} | {mid} | {scan} | {fin}"
 
 def docsStep (rest : List String) : String :=
+  let toks := rest
   let vp := ((field rest "vp").splitOn ".").filterMap String.toNat?
   let S : PStore :=
     if (field rest "S").isEmpty then [] else
@@ -247,8 +250,24 @@ def docsStep (rest : List String) : String :=
   match pbatch vp (ops.filterMap id) S with
   | .error _ => "err"
   | .ok (_, cs) =>
-    if cs.isEmpty then "ok" else
-    "ok " ++ ",".intercalate (cs.map fun c => s!"{c.id}:{match c.vec with | some t => toString t | none => "-"}")
+    let stream :=
+      if cs.isEmpty then "ok" else
+      "ok " ++ ",".intercalate (cs.map fun c => s!"{c.id}:{match c.vec with | some t => toString t | none => "-"}")
+    -- `T=<id>:<tag|->,…` (plain store): which vector the index held per node before the batch; the model's
+    -- `vecsAfter` along the emitted stream says which it holds afterwards
+    match toks.find? (fun t => t.startsWith "T=") with
+    | none => stream
+    | some _ =>
+      let tab : List (Nat × Option Nat) :=
+        if (field rest "T").isEmpty then [] else
+        ((field rest "T").splitOn ",").filterMap fun e =>
+          match e.splitOn ":" with
+          | [i, t] => i.toNat?.map (fun n => (n, t.toNat?))
+          | _ => none
+      let T : Id → Option Nat := fun j => ((tab.find? (·.1 == j)).map (·.2)).getD none
+      let ids := dedupSorted (cs.map (·.id))
+      stream ++ " | vec " ++ ",".intercalate (ids.map fun i =>
+        s!"{i}:{match vecsAfter T cs i with | some t => toString t | none => "-"}")
 
 def step (line : String) : String :=
   let toks := line.trimAscii.toString.splitOn " "
